@@ -93,10 +93,6 @@ HARNESSES = [
     H("k_block_boundary_record", "K-boundary", ["C19"], fns=["DecompressorOxide::block_boundary_state", "DecompressorOxide::from_block_boundary_state"], args=["--features", "block-boundary"], cost=30),
     H("k_block_boundary_exit", "K-boundary", ["C19"], fns=["decompress_with_limit (BlockDone arm with stop flag, epilogue)"], args=["--features", "block-boundary"], cost=40,
       strength="B(out<=16,in<=4 bytes; complete in every register, table entry, flag and position)"),
-    # ---- K-adler ----
-    H("k_adler32_matches_definition_and_composes", "K-adler", ["C16", "C09"], fns=["update_adler32", "adler2::Adler32::from_checksum", "adler2::Adler32::write_slice", "adler2::Adler32::checksum"],
-      strength="B(buffer <= 4 bytes; every start value with both halves < 65521)", cost=40, tier="thorough", timeout=3000,
-      note="dependency code (adler2 2.0.1 from the cargo registry) executed for real; the deferred-modulo path (5552-byte chunks) and the simd build are beyond this bound"),
     # ---- K-reset ----
     H("k_inflate_reset_policies", "K-reset", ["C18"], fns=["MinReset::reset", "ZeroReset::reset", "FullReset::reset", "InflateState::reset", "InflateState::reset_as", "DecompressorOxide::init"], cost=40),
     H("k_compressor_reset", "K-reset", ["C18", "C02", "C14", "C16"], fns=["CompressorOxide::reset", "ParamsOxide::reset", "DictOxide::reset", "HashBuffers::reset", "LZOxide::new", "HuffmanOxide::default"], cost=60,
